@@ -84,6 +84,12 @@ package node
 //@   requires c != nil && c.hg != nil && c.validator != nil && c.validators != nil && c.validators.WF() && c.peers != nil && c.peers.WF() && c.promises != nil && len(c.validators.Peers) + len(receipts) < 2147483647 && len(c.peers.Peers) + len(receipts) < 2147483647
 //@   modifies c.validators, c.peers, c.peerSelector, c.removedRound, c.lastPeerChangeRound, c.targetRound, c.promises[*], hg.G_pset(c.hg.Store), hg.G_psetOK(c.hg.Store), hg.G_psetFloor(c.hg.Store), hg.G_rep(c.hg.Store), hg.G_fault(c.hg.Store)
 //@   call SetPeerSet assert[round]   __arg(0) == roundReceived + 6
+// each step of the fold: only an accepted join adds, only an accepted leave removes, and the peer handed over is the
+// receipt's own peer (first call of each pair: onto the running validator set; second: onto the communication set)
+//@   call WithNewPeer assert[joining-peer]     r.Accepted && r.InternalTransaction.Body.Type == hg.PEER_ADD && __argT[*peers.Peer](0).PubKeyHex == r.InternalTransaction.Body.Peer.PubKeyHex && __argT[*peers.Peer](0).NetAddr == r.InternalTransaction.Body.Peer.NetAddr && __argT[*peers.Peer](0).Moniker == r.InternalTransaction.Body.Peer.Moniker
+//@   call WithRemovedPeer assert[leaving-peer] r.Accepted && r.InternalTransaction.Body.Type == hg.PEER_REMOVE && __argT[*peers.Peer](0).PubKeyHex == r.InternalTransaction.Body.Peer.PubKeyHex
+//@   call WithNewPeer#1 assert[onto-validators]     __recv() == validators
+//@   call WithRemovedPeer#1 assert[from-validators] __recv() == validators
 //@   call SetPeerSet assert[changed] exists k int :: 0 <= k && k < len(receipts) && AcceptedChange(receipts[k])
 //@   ensures[only-if-changed] (forall k int :: 0 <= k && k < len(receipts) ==> !AcceptedChange(receipts[k])) ==> !__called("SetPeerSet") && c.validators == old(c.validators) && c.peers == old(c.peers) && __eq(hg.G_pset(c.hg.Store), old(hg.G_pset(c.hg.Store)))
 //@   ensures[changed-stored]  ret0 == nil && (exists k int :: 0 <= k && k < len(receipts) && AcceptedChange(receipts[k])) ==> __called("SetPeerSet")
